@@ -29,7 +29,43 @@ LastFrame(frs, idx) == LET S == {i \in 1..Len(frs) : frs[i].idx = idx} IN
                        IF S = {} THEN 0 ELSE CHOOSE i \in S : \A j \in S : j <= i
 
 RECURSIVE DecV(_, _, _, _), DecField(_, _, _, _, _), DecFrames(_, _, _, _), DecElems(_, _, _), DecEntries(_, _, _, _),
-          DecEntry(_, _, _, _)
+          DecEntry(_, _, _, _), DecJVal(_), DecJArr(_), DecJObj(_), DecJItems(_, _), DecJMembers(_, _)
+
+\* ---- JSON-any values (C16): every value is (type under 2, value under 3), object members add the key under 1 ----
+DecJVal(frs) ==      \* frs: the frames of one entry
+  LET it == LastFrame(frs, 2)  iv == LastFrame(frs, 3)
+      jt == IF it = 0 THEN 0 ELSE LET r == ReadLen(frs[it].pay) IN IF r.ok THEN r.v ELSE 99
+      pay == IF iv = 0 THEN <<>> ELSE frs[iv].pay IN
+  CASE jt = 0 -> Ok([k |-> "nil"])
+    [] jt = 1 -> Ok([k |-> "str", b |-> pay])
+    [] jt = 7 -> Ok([k |-> "num", b |-> pay])
+    [] jt = 2 -> (LET r == ReadVarUint(pay) IN IF r.n < 0 THEN Err ELSE Ok([k |-> "int", i |-> ZagZig(r.v)]))
+    [] jt = 3 -> IF pay = <<>> THEN Ok([k |-> "float", f |-> <<0, 0, 0, 0, 0, 0, 0, 0>>]) ELSE IF Len(pay) < 8 THEN Err ELSE Ok([k |-> "float", f |-> Take(pay, 8)])
+    [] jt = 4 -> (LET r == ReadVarUint(pay) IN IF r.n < 0 THEN Err ELSE Ok([k |-> "bool", v |-> (r.v # <<>>)]))
+    [] jt = 5 -> IF iv = 0 THEN Ok([k |-> "arr", nil |-> TRUE, e |-> <<>>]) ELSE DecJArr(pay)
+    [] jt = 6 -> IF iv = 0 THEN Ok([k |-> "obj", nil |-> TRUE, m |-> <<>>]) ELSE DecJObj(pay)
+    [] OTHER -> Err
+DecJItems(items, i) ==
+  IF i > Len(items) THEN Good(<<>>)
+  ELSE LET fr == Frames(items[i]) IN
+       IF ~fr.ok THEN Bad
+       ELSE LET v == DecJVal(fr.x)  t == DecJItems(items, i + 1) IN IF ~v.ok \/ ~t.ok THEN Bad ELSE Good(<<v.v>> \o t.x)
+DecJMembers(items, i) ==
+  IF i > Len(items) THEN Good(<<>>)
+  ELSE LET fr == Frames(items[i]) IN
+       IF ~fr.ok THEN Bad
+       ELSE LET ik == LastFrame(fr.x, 1)  key == IF ik = 0 THEN <<>> ELSE fr.x[ik].pay
+                v == DecJVal(fr.x)  t == DecJMembers(items, i + 1) IN
+            IF ~v.ok \/ ~t.ok THEN Bad
+            ELSE Good(IF \E j \in 1..Len(t.x) : t.x[j][1] = key THEN t.x ELSE <<<<key, v.v>>>> \o t.x)    \* a later duplicate wins
+DecJArr(b) == LET c == ReadLen(b) IN
+  IF ~c.ok THEN Err
+  ELSE LET ci == CountedItems(Drop(b, c.n), c.v) IN
+       IF ~ci.ok THEN Err ELSE LET r == DecJItems(ci.x, 1) IN IF ~r.ok THEN Err ELSE Ok([k |-> "arr", nil |-> FALSE, e |-> r.x])
+DecJObj(b) == LET c == ReadLen(b) IN
+  IF ~c.ok THEN Err
+  ELSE LET ci == CountedItems(Drop(b, c.n), c.v) IN
+       IF ~ci.ok THEN Err ELSE LET r == DecJMembers(ci.x, 1) IN IF ~r.ok THEN Err ELSE Ok([k |-> "obj", nil |-> FALSE, m |-> r.x])
 
 VarOf(b) == LET r == ReadVarUint(b) IN IF r.n < 0 THEN Bad ELSE Good(r.v)     \* empty / truncated input reads as 0
 TimeOf(cfg, b) ==
@@ -78,7 +114,12 @@ DecV(cfg, T0, b, prior) == LET T == Resolve(T0) IN
               IF ~c.ok THEN Err
               ELSE LET items == CountedItems(Drop(b, c.n), c.v) IN
                    IF ~items.ok THEN Err ELSE DecEntries(cfg, T, items.x, prior.m)
-    [] T.k \in {"jsonobj", "jsonarr"} -> Err      \* decoded by PlencJSONAny, not through typed merge
+    [] T.k = "jsonobj" -> IF b = <<>> THEN Ok(prior)
+                          ELSE LET r == DecJObj(b) IN
+                               IF ~r.ok THEN Err
+                               ELSE Ok([k |-> "obj", nil |-> FALSE,        \* entries are merged into the prior map by key
+                                        m |-> SelectSeq(prior.m, LAMBDA kv : \A j \in 1..Len(r.v.m) : r.v.m[j][1] # kv[1]) \o r.v.m])
+    [] T.k = "jsonarr" -> IF b = <<>> THEN Ok(Zero(T)) ELSE DecJArr(b)
 
 \* every element starts from the zero value whatever the backing array held
 DecElems(cfg, E, items) ==
